@@ -53,6 +53,7 @@ func planC09(tier string, seed int64) (*core.Plan, error) {
 			Cases: func(emit func(core.Case)) {
 				g := gen.Default
 				g.PLeaf, g.PCont, g.PList = 0.7, 0.7, 0.5
+				coverEditCases(f, r, []string{"upsert", "insert"}, stores, srcs, emit)
 				choiceCases(f, r, n/2, h/2, kinds, stores, srcs, g, emit)
 			}})
 	}
@@ -205,6 +206,38 @@ type editOp struct {
 	Dup  bool      `json:"dup"`
 }
 
+// coverEditCases: every schema node is written at least once by every strategy on every kind of
+// store: the covering trees (coverTrees) are written into an empty store and over one another
+func coverEditCases(f *fx.Fixture, r *rand.Rand, kinds []string, stores, srcs []string, emit func(core.Case)) {
+	trees := coverTrees(f, r)
+	seen := map[string]bool{}
+	var uniq []string
+	for _, k := range kinds {
+		if !seen[k] {
+			seen[k] = true
+			uniq = append(uniq, k)
+		}
+	}
+	kinds = uniq
+	for i, t := range trees {
+		for k, store := range stores {
+			src := srcs[(i+k)%len(srcs)]
+			for _, kind := range kinds {
+				pre := abs.NewTree()
+				if kind == "update" {
+					pre = t // update what exists
+				}
+				emit(core.Case{"kind": "edit", "fixture": f.Name, "store": store, "pre": pre,
+					"ops": []editOp{{K: kind, At: abs.Path{}, S: t, Src: src, Into: (i+k)%4 == 3}}})
+			}
+			// over another covering tree: cases of choices switch, lists merge
+			other := trees[(i+1)%len(trees)]
+			emit(core.Case{"kind": "edit", "fixture": f.Name, "store": store, "pre": other,
+				"ops": []editOp{{K: "upsert", At: abs.Path{}, S: t, Src: src, Into: (i+k)%4 == 1}}})
+		}
+	}
+}
+
 // randomEditCases: seeded single-step edits: random pre tree, random entry
 // point among the existing nodes, random source subtree.
 func randomEditCases(f *fx.Fixture, r *rand.Rand, n int, kinds []string, stores, srcs []string, emit func(core.Case)) {
@@ -254,6 +287,7 @@ func editStage(fname string, r *rand.Rand, n int, kinds []string, hist int) (cor
 	return core.Stage{Name: fname, EvalMod: "EvalEdit", EvalEnv: map[string]string{"SCHEMA": f.DSFile},
 		Cases: func(emit func(core.Case)) {
 			stores, srcs := storesFor(fname)
+			coverEditCases(f, r, kinds, stores, srcs, emit)
 			randomEditCases(f, r, n, kinds, stores, srcs, emit)
 			randomHistories(f, r, hist, kinds, stores, srcs, emit)
 		}}, nil
